@@ -303,8 +303,29 @@ class Unit:
         if extra:
             self.emit(extra, ('spec', f'{self.name}:{header}', 1))
         implname = norm_ws(header)
+        # all blocks with this header (a type often has several `impl X` blocks)
+        blocks = [(o, c)]
+        k = nth + 1
+        while True:
+            try:
+                _, o2, c2 = rf.find_impl(header, k)
+            except ExtractError:
+                break
+            blocks.append((o2, c2))
+            k += 1
         for fn in fns:
-            self._emit_fn(rf, file, fn, within=(o, c), owner=implname)
+            last = None
+            for blk in blocks:
+                try:
+                    rf.find_fn(fn.name, blk, fn.nth)
+                except ExtractError as e:
+                    last = e
+                    continue
+                self._emit_fn(rf, file, fn, within=blk, owner=implname)
+                last = None
+                break
+            if last is not None:
+                raise last
         self.emit('}\n', ('src', file, rf.line_of(c)))
 
     def free_fn(self, file, fn):
